@@ -290,9 +290,9 @@ func b2i(b bool) int {
 }
 
 func (g *gen) apply(o op) {
-	if o.k != "pass" {
-		g.tick()
-	}
+	// the time stamp before every stimulus (passes included) tells the model how long the previous step really took:
+	// a step that lasted long enough for a redial timer to come due in it is then recognised as ambiguous
+	g.tick()
 	switch o.k {
 	case "listen":
 		g.nextL++
@@ -476,6 +476,14 @@ var scripts = [][]op{
 	// refused by the protocol on the dialer side: redial after the delay
 	{{k: "newdialer", a: 1, b: 30, c: 0}, {k: "refuse", a: 1}, {k: "dial", a: 1}, {k: "resolve", a: 1, b: 1}, {k: "pass", a: 90}, {k: "refuse", a: 0},
 		{k: "resolve", a: 1, b: 1}, {k: "closesock"}, {k: "pass", a: 90}},
+	// after a successful attach the delay is back at the reconnect time, however far it had grown: ten refusals push it to
+	// at least 30*1.1^10 = 78 ms (cap 120); then connect, lose the pipe: the next attempt comes after 30 ms, inside a 45 ms pass
+	{{k: "newdialer", a: 1, b: 30, c: 120}, {k: "dial", a: 1},
+		{k: "resolve", a: 1, b: 0}, {k: "pass", a: 135}, {k: "resolve", a: 1, b: 0}, {k: "pass", a: 135}, {k: "resolve", a: 1, b: 0}, {k: "pass", a: 135},
+		{k: "resolve", a: 1, b: 0}, {k: "pass", a: 135}, {k: "resolve", a: 1, b: 0}, {k: "pass", a: 135}, {k: "resolve", a: 1, b: 0}, {k: "pass", a: 135},
+		{k: "resolve", a: 1, b: 0}, {k: "pass", a: 135}, {k: "resolve", a: 1, b: 0}, {k: "pass", a: 135}, {k: "resolve", a: 1, b: 0}, {k: "pass", a: 135},
+		{k: "resolve", a: 1, b: 0}, {k: "pass", a: 135},
+		{k: "resolve", a: 1, b: 1}, {k: "pipefail", a: 1}, {k: "pass", a: 45}, {k: "resolve", a: 1, b: 0}, {k: "pass", a: 48}, {k: "pass", a: 100}, {k: "closesock"}},
 }
 
 var scriptIdx int
